@@ -344,6 +344,10 @@ pub struct Sim {
 pub static STEPS: AtomicU64 = AtomicU64::new(0);
 /// Mirror of the virtual clock, for the same reason.
 pub static NOW: AtomicU64 = AtomicU64::new(0);
+/// True while a simulation runs in this process: the harness binary's `clock_gettime` then
+/// answers CLOCK_MONOTONIC* from `NOW`, so that `std::time::Instant` follows the virtual clock
+/// (code under test that measures real elapsed time - budgets, timeouts - sees simulated time).
+pub static SIM_CLOCK_ON: AtomicBool = AtomicBool::new(false);
 
 thread_local! {
     static CTX: RefCell<Option<(Arc<Sim>, TaskId)>> = const { RefCell::new(None) };
@@ -426,6 +430,7 @@ pub fn run<F: FnOnce() + Send + 'static>(cfg: SimCfg, mut choices: Choices, reco
         }
     }
     STEPS.store(0, Ordering::SeqCst);
+    SIM_CLOCK_ON.store(true, Ordering::SeqCst);
     NOW.store(epoch, Ordering::SeqCst);
     let sim = Arc::new(Sim {
         st: Mutex::new(st),
@@ -440,6 +445,7 @@ pub fn run<F: FnOnce() + Send + 'static>(cfg: SimCfg, mut choices: Choices, reco
         st.tasks[0].parker.unpark();
     }
     sim.host.park();
+    SIM_CLOCK_ON.store(false, Ordering::SeqCst);
     let mut st = sim.lock();
     let tasks = st
         .tasks
@@ -874,6 +880,16 @@ fn pick_next(sim: &Arc<Sim>, st: &mut MutexGuard<'_, State>, me: TaskId, _site: 
         if yielding && is_candidate(st, me) {
             cands.push(me);
         }
+        // a busy-polling future (it yields because it woke itself) is the only runnable task while
+        // another task sleeps in virtual time: in reality the poller burns time until the sleeper
+        // is back, so the clock moves to the sleeper's deadline instead of standing still for ever
+        if yielding && cands.len() == 1 && cands[0] == me {
+            let wake = st.tasks.iter().filter_map(|t| if let TState::Sleeping(u) = t.state { Some(u) } else { None }).filter(|u| *u > st.now).min();
+            if let Some(d) = wake {
+                set_now(st, d);
+                continue;
+            }
+        }
         if !cands.is_empty() {
             let unstalled: Vec<TaskId> = cands
                 .iter()
@@ -1087,6 +1103,17 @@ pub fn stall_self_later(ns: u64, skip: u32) {
     let mut st = sim.lock();
     st.tasks[me].vstall_ns = ns;
     st.tasks[me].vstall_skip = skip;
+}
+
+/// Like [`stall_self_later`] for another task (first task whose name contains `name`, e.g. the
+/// cache processor): it will sleep `ns` of virtual time at its (`skip`+1)-th scheduling point.
+pub fn stall_task_later(name: &str, ns: u64, skip: u32) {
+    let Some((sim, _me)) = ctx() else { return };
+    let mut st = sim.lock();
+    if let Some(t) = st.tasks.iter_mut().find(|t| t.name.contains(name) && !t.name.contains('#')) {
+        t.vstall_ns = ns;
+        t.vstall_skip = skip;
+    }
 }
 
 /// Jump the clock forward by `ns` at once (fault: no timer fires "on time" in between).
